@@ -12,6 +12,7 @@ namespace VerylModel.Sim
 mutual
 def readsS : Stmt → List Nat
   | .set l r => rhsVars r ++ (if l.full then [] else [l.var])
+  | .setDyn v _ _ idx r => rhsVars idx ++ rhsVars r ++ [v]
   | .ite c t e => rhsVars c ++ readsSs t ++ readsSs e
   | .case sel arms d => rhsVars sel ++ readsArms arms ++ readsSs d
   | .disp _ _ => []
@@ -194,6 +195,9 @@ theorem D2_local : DomLocal D2 := by
   · intro σ σ' r h
     show arg2 σ r = arg2 σ' r
     simp only [arg2, env2_congr σ σ' r.leaves h]
+  · intro σ σ' r h
+    show idx2 σ r = idx2 σ' r
+    simp only [idx2, env2_congr σ σ' r.leaves h]
   · intro l hf a b n
     exact write2_full l hf a b n
 
@@ -211,6 +215,9 @@ theorem D4_local : DomLocal D4 := by
   · intro σ σ' r h
     show arg4 σ r = arg4 σ' r
     simp only [arg4, env4_congr σ σ' r.leaves h]
+  · intro σ σ' r h
+    show idx4 σ r = idx4 σ' r
+    simp only [idx4, env4_congr σ σ' r.leaves h]
   · intro l hf a b n
     exact write4_full l hf a b n
 
